@@ -515,5 +515,11 @@ func initLibStubs() {
 }
 
 func (ex *Exec) hostMethodExt(h *Host, name string) func(ex *Exec, args []Value) Value {
+	switch h.Kind + "." + name {
+	case "os.DirEntry.Name":
+		return func(ex *Exec, args []Value) Value { return h.Data.(Str) }
+	case "os.DirEntry.IsDir":
+		return func(ex *Exec, args []Value) Value { return ex.ts.False() }
+	}
 	return nil
 }
